@@ -51,6 +51,11 @@ def rule_fq2_sqrt(fx, rep):
                 tag = 'i' if is_i(bval) else ('minus_one' if is_minus_one(bval) else 'struct?')
                 fr.store_through(t['args'][0], a.add(Lin.atom(tag)) if isinstance(a, Lin) else TOP)
                 return True
+        if (c.get('res') or c.get('def') or '').endswith('fq2::Fq2::norm') and len(t['args']) == 1:
+            a = I._as_lin(fr.deref_operand(t['args'][0]))
+            if isinstance(a, Lin):
+                fr.storev(t['dest'], a.scale(q + 1))       # norm(x) = x * x^q, an element of Fq
+                return True
         if c.get('trait') == 'std::cmp::PartialEq' and nm in ('eq', 'ne'):
             a = I._as_lin(fr.deref_operand(t['args'][0]))
             bval = fr.deref_operand(t['args'][1])
@@ -58,6 +63,15 @@ def rule_fq2_sqrt(fx, rep):
                 tag = 'minus_one' if is_minus_one(bval) else 'struct?'
                 fr.storev(t['dest'], ('bool', (nm, a, tag, t['span'])))
                 return True
+            bl = I._as_lin(bval)
+            if isinstance(bl, Lin) and len(bl.t) == 1 and list(bl.t.values()) == [1] and list(bl.t)[0] in exp.CONST_ATOMS:
+                try:
+                    cv = C.dec_field_any(exp.CONST_ATOMS[list(bl.t)[0]])
+                except Exception:
+                    cv = None
+                if cv == M.F1(-1):
+                    fr.storev(t['dest'], ('bool', (nm, a, 'minus_one', t['span'])))
+                    return True
         if c.get('trait') == 'ff::Field' and nm == 'add_assign':
             bval = fr.deref_operand(t['args'][1])
             a = I._as_lin(fr.deref_operand(t['args'][0]))
